@@ -209,6 +209,21 @@ def k2(shape):
             eng.prove(ok, 'K2: a header proof answered during a reorganisation verifies against no chain the daemon was on',
                       {'signature': 'K2-inflight-header-proof', 'h': h, 'cp': cp})
         for r in st.requests:
+            if not (r['label'].startswith('query id_from_pos_merkle') and r['done'] and r['error'] is None):
+                continue
+            h, pos = ast.literal_eval(r['label'][len('query id_from_pos_merkle '):])
+            res = r['result']
+            ok = False
+            for cand in [st.main] + list(st.old_chains):
+                if len(cand) <= h or pos >= len(cand[h].txs):
+                    continue
+                tx = cand[h].txs[pos]
+                if res['tx_hash'] == hash_to_hex_str(tx.hash) and chain.ref_fold(
+                        tx.hash, [hex_str_to_hash(x) for x in res['merkle']], pos) == cand[h].header[36:68]:
+                    ok = True
+            eng.prove(ok, 'K2: a transaction proof answered during a reorganisation verifies against no block the daemon announced',
+                      {'signature': 'K2-inflight-tx-proof', 'height': h, 'pos': pos})
+        for r in st.requests:
             if not (r['label'].startswith('query headers_proof') and r['done'] and r['error'] is None):
                 continue
             start, count, cp = ast.literal_eval(r['label'][len('query headers_proof '):])
